@@ -425,8 +425,8 @@ func (p *pogsRun) messageCase(i uint64, rng *common.RNG, embed bool) {
 		rec.Inconclusive("harness: no shape for " + m.schema)
 		return
 	}
-	sh := cands[0]
-	if len(cands) > 1 && rng.Bool() {
+	sh := shapeByName(m.schema)
+	if sh == nil || (len(cands) > 1 && rng.Bool()) {
 		sh = cands[rng.Intn(len(cands))]
 	}
 	b := newBctx(rng.Fork())
@@ -548,6 +548,9 @@ func (p *pogsRun) runHistory(i uint64, rng *common.RNG) {
 	kind := kinds[int(i)%len(kinds)]
 	// each case uses a different size so that a budget is crossed at different points
 	N = N + int(i/uint64(len(kinds)))*N/2
+	if kind != "Z.zvec" {
+		N *= 4 // small structs: more of them
+	}
 
 	b := newBctx(rng.Fork())
 	b.noCaps = true
